@@ -42,6 +42,24 @@ def forms(x, tier):
         yield ("exactly", x, n)
 
 
+LITERALS = ["\\\\", "\\\\\\", "a\\", "\\a", "\\d", "\\b", "\\.", "..", "$$", "^^", "((", "))", "[[", "]]", "{{", "}}", "||", "??", "**", "++", "--",
+            "?:", "(?:", "a{2}", "[a]", "(a)", "a.", ".a", "a\\\\", "\\\\a", "\n\n", "''", '""', "\u00e9\u00e9", "//"]
+
+
+def forms_small(x):
+    """one representative of every quantifier and spelling family (used for the literal-operand pool: whether the
+    quantifier binds to the whole operand depends on how the operand's text is classified)"""
+    for g in (True, False):
+        yield ("opt", x, g)
+        yield ("star", x, g)
+        yield ("plus", x, g)
+        yield ("atleast", x, 2, g)
+        yield ("atmost", x, 2, g)
+        yield ("between", x, 1, 2, g)
+    yield ("exactly", x, 2)
+    yield ("exactly", x, 3)
+
+
 def invalid_forms(x):
     bad = [-1, -2, True, False, 1.5, "1", None, [1]]
     for v in bad:
@@ -110,6 +128,8 @@ def run(tier):
     ps = []
     for x in operands(tier):
         ps += list(forms(x, tier))
+    for lit in LITERALS:
+        ps += list(forms_small(L(lit)))
     for x in [L("a"), L("ab"), ("mas", L("a")), L(""), O("AnyLetter()")]:
         ps += list(invalid_forms(x))
     ps = progs.dedupe(ps)
@@ -122,7 +142,8 @@ def run(tier):
     run.info = {"crosshair_harnesses": len(cases), "crosshair_paths_explored": sum(r.get("paths", 0) for r in run.results)}
     run.triage(REGIONS)
     run.bounds = {"programs": "%d quantifier applications: %d operands x all 7 quantifiers, bounds 0..%d/None, both greediness; plus invalid bounds "
-                  "(negative, bool, float, str, None, list, inverted)" % (len(ps), len(operands(tier)), 3 if tier == "quick" else 4),
+                  "(negative, bool, float, str, None, list, inverted); %d literal operands (backslash runs, doubled metacharacters, "
+                  "regex-looking strings) x 14 representative quantifier forms" % (len(ps), len(operands(tier)), 3 if tier == "quick" else 4, len(LITERALS)),
                   "text_length": "<= %d" % Lmax, "spellings": "class, method, * operator (both sides)",
                   "E1": "%d harnesses with SYMBOLIC bounds n, m in [-2, %d] or None and symbolic greediness: parse(emitted) == REPEAT(n, m, greedy|lazy, operand), "
                         "InvalidArgumentValueException iff negative/inverted, CannotBeRepeatedException iff bound above one on a non-repeatable operand" % (len(cases), 6 if tier == "quick" else 99)}
